@@ -98,3 +98,20 @@ Proof.
   split; [exact wf_empty|]. split; [vm_compute; reflexivity|].
   intros d B Hd HB. vm_compute in Hd, HB. inversion Hd; inversion HB; subst. vm_compute. reflexivity.
 Qed.
+
+(* the autogenerate class: a table with a comment in the database, the model drops the comment and a column *)
+Definition nv_tables : list tdesc :=
+  [ mkT [116] None [mkCol [97] 1 false None None false false; mkCol [98] 2 true None (Some [99]) false false]
+        [CPk None [116] None [[97]] 0] [] (Some [111; 108; 100]) [] 0 ].
+Definition nv_auto : list top :=
+  [ ModifyTableOps [116] None
+      [ DropColumnOp [116] [98] None 0 (Some ([116], mkCol [98] 2 true None (Some [99]) false false, None));
+        DropTableCommentOp [116] (Some [111; 108; 100]) None ] ].
+Example C09_auto_nonvacuous : inclass_C09 (InAuto nv_tables nv_auto) = true /\
+  check_C09 (InAuto nv_tables nv_auto) (model_C09 (InAuto nv_tables nv_auto)) = true.
+Proof. split; vm_compute; reflexivity. Qed.
+(* ... and the decider rejects a downgrade that does not restore the comment (DropTableCommentOp without existing_comment) *)
+Example C09_auto_decider_rejects :
+  let up := [ModifyTableOps [116] None [DropTableCommentOp [116] None None]] in
+  check_C09 (InAuto nv_tables up) (model_C09 (InAuto nv_tables up)) = false.
+Proof. vm_compute. reflexivity. Qed.
